@@ -348,6 +348,10 @@ def run_actions(actions, phase, ctx):
                  if ORIG_STDOUT is not None else None,
                  err_is_orig=(sys.stderr is ORIG_STDERR)
                  if ORIG_STDERR is not None else None)
+        elif do == 'mutate_argv':
+            # a test that drives a main() through sys.argv and changes the
+            # list in place without putting it back
+            sys.argv[1:] = ['--mutated-by-a-test', 'zzz']
         elif do == 'swap_stream':
             # a test that installs its own StringIO as sys.stdout / sys.stderr
             # and forgets to put the old stream back
